@@ -286,6 +286,10 @@ def force_oracle(case, steps):
                 forced[i] = True
             if op['recompute'] and s['out'] != 'error':
                 pending -= all_ids
+                groups = {g for g, _ in all_ids}
+                for r in set(s['runs']):
+                    for g in groups:
+                        pending.discard((g, r))
             else:
                 pending |= all_ids
             continue
@@ -325,6 +329,9 @@ def force_oracle(case, steps):
                     return (f'step {k}: force({op["names"]}, recompute=True) ran {sorted(s["runs"])}, the named tasks and '
                             f'everything downstream are {want}: each must run exactly once (missing upstream may run too)')
                 pending -= ids
+                # a pending forced task outside the closure that the recomputation needed has had its next request
+                for r in set(s['runs']):
+                    pending.discard((ch['group'], r))
             else:
                 pending |= ids
             if op['delete']:
